@@ -76,14 +76,30 @@ func nativeRewrite(w *World, pkg string, tmp string) (map[string]string, error) 
 					if !ok {
 						return true
 					}
-					recv := fun.X
+					var recv ast.Expr = fun.X
 					sig := obj.Type().(*types.Signature)
 					_, wantPtr := sig.Recv().Type().(*types.Pointer)
-					_, havePtr := info.TypeOf(fun.X).Underlying().(*types.Pointer)
+					// promoted method: spell out the embedded field path
+					curT := info.TypeOf(fun.X)
+					idx := sel.Index()
+					for _, fi := range idx[:len(idx)-1] {
+						t := curT
+						if p, ok := t.Underlying().(*types.Pointer); ok {
+							t = p.Elem()
+						}
+						st, ok := t.Underlying().(*types.Struct)
+						if !ok {
+							break
+						}
+						fld := st.Field(fi)
+						recv = &ast.SelectorExpr{X: recv, Sel: ast.NewIdent(fld.Name())}
+						curT = fld.Type()
+					}
+					_, havePtr := curT.Underlying().(*types.Pointer)
 					if wantPtr && !havePtr {
-						recv = &ast.UnaryExpr{Op: token.AND, X: fun.X}
+						recv = &ast.UnaryExpr{Op: token.AND, X: recv}
 					} else if !wantPtr && havePtr {
-						recv = &ast.StarExpr{X: fun.X}
+						recv = &ast.StarExpr{X: recv}
 					}
 					call.Fun = ast.NewIdent(stub)
 					call.Args = append([]ast.Expr{recv}, call.Args...)
